@@ -8,6 +8,8 @@ import (
 	"time"
 
 	"bufio"
+	"encoding/binary"
+	"errors"
 	"io"
 	"io/ioutil"
 )
@@ -25,6 +27,9 @@ type Connection struct {
 
 	// Used to buffer reads
 	readBuffer io.Reader
+
+	// Used to buffer the encrypted bytes of the connection
+	buffered *bufio.Reader
 }
 
 // NewConnection returns a hap connection.
@@ -63,25 +68,51 @@ func (con *Connection) EncryptedWrite(b []byte) (int, error) {
 // DecryptedRead reads and decrypts bytes from the connection.
 // The method returns the number of read bytes and an error when reading failed.
 func (con *Connection) DecryptedRead(b []byte) (int, error) {
-	if con.readBuffer == nil {
-		buffered := bufio.NewReader(con.connection)
-		decrypted, err := con.getDecrypter().Decrypt(buffered)
+	for con.readBuffer == nil {
+		if con.buffered == nil {
+			// The same buffered reader is used for the lifetime of the connection,
+			// otherwise bytes which were read ahead would get lost.
+			con.buffered = bufio.NewReader(con.connection)
+		}
+
+		// Wait until one complete frame [ length (2 bytes)] [ data ] [ auth (16 bytes)] is buffered.
+		// Nothing is consumed before that, therefore a read timeout in between does not lose any bytes.
+		frame, err := con.buffered.Peek(2)
+		if err == nil {
+			length := int(binary.LittleEndian.Uint16(frame))
+			if length > crypto.PacketLengthMax {
+				err = errors.New("Invalid frame length")
+			} else {
+				frame, err = con.buffered.Peek(2 + length + 16)
+			}
+		}
+
+		var decrypted io.Reader
+		if err == nil {
+			// Decrypt exactly one frame and return its data instead of waiting for further frames
+			decrypted, err = con.getDecrypter().Decrypt(bytes.NewReader(frame))
+		}
+
 		if err != nil {
 			if neterr, ok := err.(net.Error); ok && neterr.Timeout() {
 				// Ignore timeout error #77
 			} else {
 				log.Debug.Println("Decryption failed:", err)
-				err = con.connection.Close()
+				con.connection.Close()
 			}
 			return 0, err
 		}
 
-		con.readBuffer = decrypted
+		data, _ := ioutil.ReadAll(decrypted)
+		con.buffered.Discard(len(frame))
+		if len(data) > 0 {
+			con.readBuffer = bytes.NewBuffer(data)
+		}
 	}
 
 	n, err := con.readBuffer.Read(b)
-
-	if n < len(b) || err == io.EOF {
+	if buf, ok := con.readBuffer.(*bytes.Buffer); ok && buf.Len() == 0 {
+		// Everything was read from the decrypted frame
 		con.readBuffer = nil
 	}
 
